@@ -1041,7 +1041,7 @@ pub fn gen_graph(rng: &mut Rng, n_v: usize, style: LenStyle) -> (Vec<(f32, f32)>
                 LenStyle::Metric => {
                     let gc = gc_between(coords[a], coords[b]);
                     // strictly above the great-circle distance (avoid ulp-level ties with it)
-                    gc * (1.0005 + 0.8 * rng.unit()) + 0.01
+                    gc * (1.01 + 0.8 * rng.unit()) + 1.0
                 }
             };
             (a, b, len)
